@@ -279,6 +279,18 @@ fn proc_cases() -> Vec<Case> {
         sim.push(w(&mut k, c4, libc::WNOHANG));
         k.deliver(c4, libc::SIGKILL, Ent::Harness);
         sim.push(w(&mut k, c4, 0));
+        // a stopped child is reported only with WUNTRACED, once; a continued one with WCONTINUED
+        let c5 = k.fork_proc(P, 0, PKind::Child(4));
+        k.proc_mut(c5).state = PState::Running;
+        k.deliver(c5, libc::SIGSTOP, Ent::Harness);
+        sim.push(w(&mut k, c5, libc::WNOHANG));
+        sim.push(w(&mut k, c5, libc::WNOHANG | libc::WUNTRACED));
+        sim.push(w(&mut k, c5, libc::WNOHANG | libc::WUNTRACED));
+        k.deliver(c5, libc::SIGCONT, Ent::Harness);
+        sim.push(w(&mut k, c5, libc::WNOHANG | libc::WCONTINUED));
+        sim.push(w(&mut k, c5, libc::WNOHANG | libc::WCONTINUED | libc::WUNTRACED));
+        k.deliver(c5, libc::SIGKILL, Ent::Harness);
+        sim.push(w(&mut k, c5, 0));
 
         let mut real = vec![];
         unsafe {
@@ -349,6 +361,32 @@ fn proc_cases() -> Vec<Case> {
             real.push(rw(c4, libc::WNOHANG));
             kill(c4, libc::SIGKILL);
             real.push(rw(c4, 0));
+            let c5 = mk_pauser(false);
+            kill(c5, libc::SIGSTOP);
+            // wait (bounded) until the stop has happened
+            for _ in 0..200 {
+                let mut buf = [0u8; 256];
+                let path = format!("/proc/{}/stat\0", c5);
+                let fd = libc::open(path.as_ptr() as *const libc::c_char, libc::O_RDONLY);
+                let n = if fd >= 0 { libc::read(fd, buf.as_mut_ptr() as *mut libc::c_void, 255) } else { 0 };
+                if fd >= 0 {
+                    libc::close(fd);
+                }
+                let txt = String::from_utf8_lossy(&buf[..n.max(0) as usize]).to_string();
+                if txt.rsplit(')').next().map(|r| r.trim_start().starts_with('T')).unwrap_or(false) {
+                    break;
+                }
+                libc::usleep(5_000);
+            }
+            real.push(rw(c5, libc::WNOHANG));
+            real.push(rw(c5, libc::WNOHANG | libc::WUNTRACED));
+            real.push(rw(c5, libc::WNOHANG | libc::WUNTRACED));
+            kill(c5, libc::SIGCONT);
+            libc::usleep(20_000);
+            real.push(rw(c5, libc::WNOHANG | libc::WCONTINUED));
+            real.push(rw(c5, libc::WNOHANG | libc::WCONTINUED | libc::WUNTRACED));
+            kill(c5, libc::SIGKILL);
+            real.push(rw(c5, 0));
         }
         out.push(Case { name: "waitpid_kill_zombie_reaped_echild_status_encoding", sim, real });
     }
